@@ -402,6 +402,74 @@ def r15_6(chk: Check):
     chk.floor("R15.6", 3)
 
 
+def r15_9(chk: Check) -> None:
+    """Guards that keep the exact solver seeded by, and the template solver confined to, the physical branch."""
+    from ..flow import CFG
+    S = chk.src
+    # (a) template findMatching: where the template enthalpy changes sign inside the shooting bracket, the UPPER end is cut just below the sign
+    # change (the physical root lies below it); the cut value then is the upper end of the bracket handed to the root finder
+    ff = S.func(f"{TM}.findMatching")
+    chk.touch(ff.name)
+    cx = Ctx(S, ff)
+    g = CFG(ff.node)
+    cuts = []
+    for t in g.nodes:
+        if g.kind.get(t) != "test":
+            continue
+        conj = [t]
+        while any(isinstance(c_, ast.BoolOp) and isinstance(c_.op, ast.And) for c_ in conj):
+            conj = [v for c_ in conj for v in (c_.values if isinstance(c_, ast.BoolOp) and isinstance(c_.op, ast.And) else [c_])]
+        b = None
+        for c_ in conj:
+            b = b or match(c_, "__LO < __S < __HI", cx)
+        if b is None:
+            lo_ = [match(c_, "__LO < __S", cx) for c_ in conj]
+            lo_ = [x for x in lo_ if x]
+            for x in lo_:
+                for y in lo_:
+                    if x is not y and x["S"] == y["LO"]:
+                        b = {"LO": x["LO"], "S": x["S"], "HI": y["S"]}
+        if b:
+            cuts.append((t, b))
+    rs = [c for c in calls_in(ff.node, "root_scalar")]
+    ok, detail = False, f"{len(cuts)} tests `lower < signChange < upper`, {len(rs)} root searches"
+    if len(cuts) == 1 and len(rs) == 1:
+        t, b = cuts[0]
+        br = kwarg(rs[0], "bracket", None)
+        at = g.node_of(rs[0])
+        stores = [q for q in g.nodes if isinstance(q, ast.Assign) and len(q.targets) == 1 and isinstance(q.targets[0], ast.Name)
+                  and g.reaches(g.branch(t, True), q, avoid=lambda x: x is at) and not g.reaches(g.branch(t, False), q, avoid=lambda x: x is at or x is t)]
+        tgt = {q.targets[0].id for q in stores}
+        okv = all(match(q.value, f"{b['S']} - __c", cx) is not None or (isinstance(q.value, ast.BinOp) and isinstance(q.value.op, ast.Sub) and eqx(q.value.left, b["S"])
+                                                                         and isinstance(q.value.right, ast.Constant) and 0 < q.value.right.value <= 1e-6) for q in stores)
+        okb = isinstance(br, (ast.Tuple, ast.List)) and len(br.elts) == 2 and eqx(br.elts[0], b["LO"]) and eqx(br.elts[1], b["HI"])
+        ok = bool(stores) and tgt == {b["HI"]} and okv and okb
+        detail = f"assigned in the branch: {sorted(tgt)}; bracket {n(br) if br is not None else None}; " + "; ".join(n(q)[:50] for q in stores)
+    chk.ob("R15.9", ff.where(), "template findMatching: an enthalpy sign change inside the bracket cuts the UPPER end to just below it (the root lies below the sign change), "
+           "and that bracket is the one searched", ok, detail, key="wp-cut-upper")
+    # (b) exact matchDeflagOrHyb: the template's initial guess is screened for NaN before it seeds the root finder
+    fm = S.func(f"{HY}.matchDeflagOrHyb")
+    chk.touch(fm.name)
+    gm = CFG(fm.node)
+    cm = Ctx(S, fm)
+    roots = [q for q in gm.nodes if isinstance(q, ast.AST) and gm.kind.get(q) != "def" and any(True for _ in calls_in(q, "root")) and not isinstance(q, (ast.FunctionDef,))]
+    seeds = [q for q in gm.nodes if isinstance(q, ast.Assign) and len(q.targets) == 1 and isinstance(q.targets[0], ast.Name)
+             and any(isinstance(c, ast.Call) and (dotted(c.func) or "").startswith("self.template.") for c in ast.walk(q.value))]
+    ok, detail = False, f"{len(roots)} root solves, {len(seeds)} template seeds"
+    if len(roots) == 1 and seeds:
+        G = seeds[0].targets[0].id
+        tests = [t for t in gm.nodes if gm.kind.get(t) == "test" and any(isinstance(c, ast.Call) and (dotted(c.func) or "").endswith("isnan") and has(c, G) for c in ast.walk(cm.resolve(t)))]
+        ok = all(q.targets[0].id == G for q in seeds) and bool(tests) and all(gm.must_pass(q, roots[0], lambda x: x in tests) for q in seeds)
+        if ok:
+            # on the NaN branch the guess is replaced before the solve
+            repl = lambda x: isinstance(x, ast.Assign) and any(isinstance(t_, ast.Name) and t_.id == G for t_ in x.targets)
+            ok = all(repl(b_) or gm.must_pass(b_, roots[0], repl) for t in tests for b_ in gm.branch(t, True))
+        detail = f"guess `{G}`; NaN tests: {[n(t)[:40] for t in tests]}"
+    chk.ob("R15.9", fm.where(), "matchDeflagOrHyb: the template's initial guess passes an np.isnan test on every path to the root solve, and a NaN guess is replaced", ok, detail,
+           key="nan-screen")
+    chk.floor("R15.9", 2)
+
+
 def rules(chk: Check) -> None:
     from . import c02, c03, c06
     chk.stage(c02.r02_3, Remap(chk, {"R02.3": "R15.1"}))
@@ -417,8 +485,12 @@ def rules(chk: Check) -> None:
     from . import c05
     chk.stage(c05.r05_23, Remap(chk, {"R05.2": "R15.8", "R05.3": "R15.8"}))
     chk.stage(c05.r05_5, Remap(chk, {"R05.5": "R15.8"}))
-    for grp in (r15_4, r15_5, r15_6):
+    for grp in (r15_4, r15_5, r15_6, r15_9):
         chk.stage(grp, chk)
+    # zero-expected lints over both classes (NaN guards effective, no shared default objects); tiny bracket offsets point inward
+    from .shared import defensive_idioms_effective, bracket_offsets_inward
+    chk.stage(defensive_idioms_effective, chk, "R15.9", ("hydrodynamics", "hydrodynamicsTemplateModel"))
+    chk.stage(bracket_offsets_inward, chk, "R15.9", ("hydrodynamics", "hydrodynamicsTemplateModel"), 4)
     # both solvers are dimensionally homogeneous in the nucleation temperature (agreement 'for every Tn over five decades')
     from ..dimtable import TABLE
     from ..kinds import KindInference
